@@ -1,5 +1,5 @@
 (* C13, sparse vectors (SpVec = a sparse matrix with exactly one column), column extraction and
-   construction from columns or dense data, util::perm_for_indices.
+   construction from columns or dense data (util::perm_for_indices, to_dense and stack_vecs are in C13Extra.v).
    [sv_is v d f]: v is a well-formed vector of dimension d whose entry i is f i for i < d. *)
 From Coq Require Import Arith List Lia Bool Ring Sorted.
 Require Import Yui.Base.Ring Yui.Base.MatF Yui.Base.MatL Yui.Model.Dense Yui.Model.Sparse.
